@@ -90,7 +90,7 @@ RepChoices(v) ==
     [] v.k = "bool" -> <<"drop", "ptr">>
     [] v.k = "nil" -> <<"drop", "nilptr">>
     [] v.k = "big" -> <<"drop">>
-    [] v.k = "map" -> <<"drop", "ptr">>
+    [] v.k = "map" -> <<"drop", "anystrkeys", "ptr">> \o (IF \A n \in 1..Len(v.v) : v.v[n][2].k = "int" THEN <<"mapint">> ELSE <<>>)
     [] v.k = "arr" -> IF Len(v.v) = 0 THEN <<"drop", "nilslice", "ptr">>
                       ELSE <<"elem0", "drop", "elemlast", "ptr">> \o (IF AllInts(v) THEN <<"ints", "int64s">> ELSE <<>>)
 Hint(name, v, ch) ==
